@@ -200,6 +200,22 @@ func (s *c02Sys) cond(o c02Op) string {
 	return "-"
 }
 
+// fsRefuses: the filesystem layouts cannot hold a key that is a directory of
+// another key or lies below another key; they may refuse such a write (with a
+// client error, changing nothing) - statement of C10, "for the fs backends a
+// request may be refused".
+func (s *c02Sys) fsRefuses(b, k string) bool {
+	if !s.w.Cfg.Kind.IsFs() || !s.m.Has(b) {
+		return false
+	}
+	for _, other := range s.m.Keys(b) {
+		if strings.HasPrefix(other, k+"/") || strings.HasPrefix(k, other+"/") {
+			return true
+		}
+	}
+	return false
+}
+
 func (s *c02Sys) Apply(op engine.Op) (string, *engine.Violation) {
 	o := op.(c02Op)
 	wk := string(s.w.Cfg.Kind)
@@ -232,6 +248,12 @@ func (s *c02Sys) Apply(op engine.Op) (string, *engine.Violation) {
 			meta = map[string]string{c02MetaKey: c02MetaVal}
 		}
 		r := s.w.Do(drv.Req{Method: "PUT", Path: "/" + o.b + "/" + o.k, Body: []byte(o.body), Header: hdr})
+		if s.fsRefuses(o.b, o.k) {
+			if r.Panic != "" || r.Status < 400 || r.Status >= 500 {
+				return bad("fs-clash", r, model.Exp{Status: 400, Code: "a client error"}, "(the key clashes with the directory layout of an existing key)")
+			}
+			return respSig(r), nil // refused: the state predicates check that nothing changed
+		}
 		e := s.m.Put(o.b, o.k, []byte(o.body), meta)
 		if !matchExp(r, e) {
 			return bad("status", r, e, "")
@@ -282,6 +304,12 @@ func (s *c02Sys) Apply(op engine.Op) (string, *engine.Violation) {
 			hdr = append(hdr, [2]string{c02MetaKey, "copy-value"}, [2]string{"x-amz-metadata-directive", "REPLACE"})
 		}
 		r := s.w.Do(drv.Req{Method: "PUT", Path: "/" + o.b2 + "/" + o.k2, Header: hdr})
+		if s.m.Has(o.b) && s.m.Get(o.b, o.k) != nil && s.m.Get(o.b2, o.k2) == nil && s.fsRefuses(o.b2, o.k2) {
+			if r.Panic != "" || r.Status < 400 || r.Status >= 500 {
+				return bad("fs-clash", r, model.Exp{Status: 400, Code: "a client error"}, "(the destination clashes with the directory layout of an existing key)")
+			}
+			return respSig(r), nil
+		}
 		e, src := s.m.Copy(o.b, o.k, o.b2, o.k2)
 		if o.kind == "copymeta" && e.Status == 200 {
 			s.m.Get(o.b2, o.k2).Meta[c02MetaKey] = "copy-value"
@@ -455,14 +483,18 @@ func runC02(c *engine.Ctx) {
 			New: func() (engine.Sys, error) { return newC02Sys(cfg, u, ops) }})
 		c.Bounds[name] = map[string]interface{}{"buckets": u.buckets, "keys": u.keys, "bodies": u.bodies, "ops": len(ops), "max_depth": depth}
 		if !cfg.AutoBucket {
-			// nested directories: keys two and three levels deep that share ancestors, run to closure
-			un := &c02Universe{buckets: []string{"aaa"}, keys: []string{"d/s/z", "d/y", "d/s/t/w"}, bodies: []string{"A"},
+			// nested directories: keys two and three levels deep that share ancestors, and one that is a directory of others
+			un := &c02Universe{buckets: []string{"aaa"}, keys: []string{"d/s/z", "d/y", "d/s/t/w", "d/s"}, bodies: []string{"A"},
 				opKinds: map[string]bool{"create": true, "put": true, "delete": true, "multi": true, "copy": true}}
 			opsn := c02BuildOps(un)
 			namen := "C02/" + worldName(cfg) + "/nested"
-			engine.RunSeq(c, engine.SeqSpec{Name: namen, World: worldName(cfg), MaxDepth: 0,
+			dn := 5
+			if !quick(c) {
+				dn = 7
+			}
+			engine.RunSeq(c, engine.SeqSpec{Name: namen, World: worldName(cfg), MaxDepth: dn,
 				New: func() (engine.Sys, error) { return newC02Sys(cfg, un, opsn) }})
-			c.Bounds[namen] = map[string]interface{}{"buckets": un.buckets, "keys": un.keys, "bodies": un.bodies, "ops": len(opsn), "max_depth": "closure"}
+			c.Bounds[namen] = map[string]interface{}{"buckets": un.buckets, "keys": un.keys, "bodies": un.bodies, "ops": len(opsn), "max_depth": dn}
 		}
 		if !quick(c) && !cfg.AutoBucket {
 			// larger universe (third key sharing the directory, empty body), bounded depth
